@@ -798,17 +798,33 @@ theorem bounds_ok_iff (start : Nat) (stop : Option Nat) (len a b : Nat) :
 
 /-! ## seq_type_uniform: vectors and strings are the list version conjugated by toList / ofList -/
 
-/-- lists and vectors take any elements; strings only characters -/
+/-- lists and vectors take any elements; strings only characters; octets vectors only integers 0..255 -/
 theorem ofList_ok_iff (k : Kind) (l : List Obj) :
-    (∃ r, Seq.ofList k l = .ok r) ↔ (k = .string → l.all isChr = true) := by
+    (∃ r, Seq.ofList k l = .ok r) ↔ l.all (elemOk k) = true := by
   unfold Seq.ofList
-  by_cases h : k = Kind.string ∧ l.all isChr = false
+  by_cases h : l.all (elemOk k) = false
   · simp [h]
-  · simp only [h, if_false, Except.ok.injEq, exists_eq', true_iff]
-    intro hk
-    by_cases hc : l.all isChr = true
-    · exact hc
-    · exact absurd ⟨hk, by simpa using hc⟩ h
+  · have h' : l.all (elemOk k) = true := by simpa using h
+    simp [h']
+
+theorem ofList_string_iff (l : List Obj) : (∃ r, Seq.ofList .string l = .ok r) ↔ l.all isChr = true := by
+  rw [ofList_ok_iff]
+  simp [elemOk]
+
+theorem ofList_octets_iff (l : List Obj) :
+    (∃ r, Seq.ofList .octets l = .ok r) ↔ ∀ o ∈ l, ∃ i : Int, o = .int i ∧ 0 ≤ i ∧ i < 256 := by
+  rw [ofList_ok_iff, List.all_eq_true]
+  constructor
+  · intro h o ho
+    have := h o ho
+    cases o <;> simp [elemOk, isOctet] at this
+    exact ⟨_, rfl, this.1, this.2⟩
+  · intro h o ho
+    obtain ⟨i, rfl, h0, h1⟩ := h o ho
+    simp [elemOk, isOctet, h0, h1]
+
+theorem ofList_list_vector (l : List Obj) : Seq.ofList .list l = .ok ⟨.list, l⟩ ∧ Seq.ofList .vector l = .ok ⟨.vector, l⟩ := by
+  constructor <;> simp [Seq.ofList, elemOk]
 
 /-- `seq_type_uniform` for the sequence-valued functions: on a vector or a string (or a list) the
     result has the kind of the argument and its elements are what the list function yields on the
